@@ -104,6 +104,11 @@ def rule_queue(ctx: Ctx) -> None:
     df = ctx.flow(dl)
     ins = [s for s in walk_stmts(dl.node.body) if isinstance(s, ast.Assign) and unparse(s.targets[0]).replace(" ", "") == "self._in_flight[message_id]"]
     rm = [c for c in calls_in(dl.node) if path_of(c.func) == "self._pending_queue.remove" and [path_of(a) for a in c.args] == ["message_id"]]
+    via_helper = False
+    if not rm:
+        # the same step through the class's own helper (checked above: it only removes the given id from pending, if present)
+        rm = [c for c in calls_in(dl.node) if path_of(c.func) == "self._discard_pending" and [path_of(a) for a in c.args] == ["message_id"]]
+        via_helper = bool(rm)
     need(len(ins) == 1 and len(rm) == 1, "C19-2: _deliver_message should move the id from pending to in flight at one site each")
     inn, rmn = node_of(df.cfg, ins[0]), node_of(df.cfg, rm[0])
     ok = df.holds_at(inn, Fact("in", "message_id", "self._messages")) and df.holds_at(inn, Fact("isnot", "consumer", "None"))
@@ -114,7 +119,10 @@ def rule_queue(ctx: Ctx) -> None:
     for p in enumerate_paths(df, df.cfg.entry, stop=lambda x: x is inn):
         if p.end == "stop" and p.nodes[-1] is inn:
             inp = p.decided(lambda t: t == "message_idinself._pending_queue")
-            if inp is None or (inp is True and rmn not in p.nodes):
+            if via_helper:
+                if rmn not in p.nodes:
+                    ok = False
+            elif inp is None or (inp is True and rmn not in p.nodes):
                 ok = False
     dc = [s for s in walk_stmts(dl.node.body) if increment_of(s, "msg.delivery_count") == 1]
     ok = ok and len(dc) == 1 and not always_before(ctx, dl, lambda x: x.ast is dc[0], lambda x: x is inn)
@@ -346,6 +354,17 @@ def rule_topic(ctx: Ctx) -> None:
         ok = len(evs) == 1 and len(app) == 1 and kw.get("target") == f"{path_of(l.target)}.subscriber" and "'payload': message" in kw.get("context", "") and not any(isinstance(s, (ast.Break, ast.Continue, ast.Return, ast.If)) for s in walk_stmts(l.body))
         rets = [s for s in pub.node.body if isinstance(s, ast.Return)]
         ok = ok and len(rets) == 1 and path_of(rets[0].value) == "delivery_events"
+    if not ok:
+        # the same thing written as a comprehension: `return [Event(...) for subscription in active_subscribers]` (no filter)
+        rets = [s for s in pub.node.body if isinstance(s, ast.Return)]
+        rv = rets[0].value if len(rets) == 1 else None
+        if isinstance(rv, ast.Name):
+            rv = single_defs(pub).get(rv.id)  # one step only: the comprehension itself must still name the snapshot it iterates
+        if isinstance(rv, ast.ListComp) and len(rv.generators) == 1 and not rv.generators[0].ifs and path_of(rv.generators[0].iter) == "active_subscribers" \
+                and isinstance(rv.elt, ast.Call) and path_of(rv.elt.func) == "Event" and all(path_of(l.iter) == "active_subscribers" for l in loops) and len(loops) == 1:
+            kw = {k.arg: unparse(k.value) for k in rv.elt.keywords}
+            ok = kw.get("target") == f"{path_of(rv.generators[0].target)}.subscriber" and "'payload': message" in kw.get("context", "")
+            evl = [rets[0]]
     stt = StaleTime(prog, pub, pf.cfg, event_class_names(prog))
     ctx.ob("C19-4", "G2", pub, evl[0] if evl else None, ok and not stt.uses, "Topic.publish emits exactly one delivery per snapshot entry, unconditionally, carrying the message, stamped after the latencies")
     ps = t.methods["publish_sync"]
@@ -395,8 +414,11 @@ def rule_log(ctx: Ctx) -> None:
     rt = log.methods["_apply_retention"]
     ws = [s for s in walk_stmts(rt.node.body) if isinstance(s, ast.Assign) and unparse(s.targets[0]) == "partition.records"]
     ok = len(ws) == 2
+    sd_rt = single_defs(rt)
     for w in ws:
-        v = w.value
+        v = expand(w.value, sd_rt)  # the filtered list may go through a local first
+        if isinstance(w.value, ast.Subscript):
+            v = w.value
         if isinstance(v, ast.Subscript):
             ok = ok and unparse(v).replace(" ", "") == "partition.records[excess:]"
         elif isinstance(v, ast.ListComp):
